@@ -61,6 +61,43 @@ def _rec(kind, o, it, idx, **kw):
 
 
 # ---- size fields ---------------------------------------------------------------------------------
+def uniform_deltas(o):
+    """[(start, end, deltas)] for every list whose elements differ in size: what a size computed as count x (size of the
+    first / last / largest / smallest element) is off by"""
+    cached = getattr(o, "_uniform_deltas", None)
+    if cached is not None:
+        return cached
+    out = []
+    for j, it in enumerate(o.items):
+        if it[0] != "S" or not str(it[2]).startswith("list["):
+            continue
+        pre = it[1] + "["
+        inside = []
+        for x in o.items[j + 1:]:           # the contiguous block below this list (paths repeat from message to message)
+            if not x[1].startswith(pre):
+                break
+            if x[0] == "P":
+                inside.append(x)
+        if len(inside) < 2:
+            continue
+        start, end = inside[0][4], inside[-1][4] + inside[-1][5]
+        starts = {}
+        for x in inside:
+            k = x[1][len(pre):].split("]", 1)[0]
+            starts.setdefault(k, x[4])
+        offs = sorted(starts.values()) + [end]
+        sizes = [b - a for a, b in zip(offs, offs[1:])]
+        if len(set(sizes)) > 1:
+            n, tot = len(sizes), sum(sizes)
+            dd = sorted(set(n * z - tot for z in (sizes[0], sizes[-1], max(sizes), min(sizes))) - {0})
+            out.append((start, end, dd))
+    try:
+        o._uniform_deltas = out
+    except Exception:
+        pass
+    return out
+
+
 def size_variants(o, idx, rng=None, full=False):
     """candidate new values for the size field at item idx"""
     it = o.items[idx]
@@ -76,6 +113,11 @@ def size_variants(o, idx, rng=None, full=False):
         others = sorted(set([o.items[i][3] for i, _r in o.sizefields if i != idx] + [o.items[i][3] for i in o.counts if i >= 0] + [20, 32, 48, 64]))
         c += rng.sample(others, min(3, len(others)))
         reg0 = next((o.regions[r] for i, r in o.sizefields if i == idx), None)
+        if reg0 is not None and reg0.max is not None:
+            # a list inside the region whose elements differ in size: off by (count x size of one element) - (sum of the sizes)
+            ds = [d for a, b, dd in uniform_deltas(o) if reg0.start <= a and b <= reg0.start + reg0.max for d in dd]
+            if ds:
+                c += [old + d for d in rng.sample(ds, min(3, len(ds)))]
         if reg0 is not None:
             later = [x[4] - reg0.start for x in o.items[idx + 1:idx + 40] if x[0] == "P" and x[4] - reg0.start > 0]
             if later:
@@ -335,6 +377,19 @@ def boundary_values(tname):
     return out
 
 
+def neighbour_values(o, idx, span=8):
+    """values of the primitive fields around item idx that the type of item idx does not allow (and can represent)"""
+    it = o.items[idx]
+    L = layout()
+    lo, hi = L.bounds(it[2])
+    out = []
+    for j in range(max(0, idx - span), min(len(o.items), idx + span + 1)):
+        x = o.items[j]
+        if j != idx and x[0] == "P" and isinstance(x[3], int) and lo <= x[3] <= hi and not L.valid(it[2], x[3]) and x[3] not in out:
+            out.append(x[3])
+    return out
+
+
 def fault_value(data, o, rng, idx=None, value=None, value_only=False):
     leaves = constrained_leaves(o, value_only)
     if not leaves:
@@ -344,6 +399,12 @@ def fault_value(data, o, rng, idx=None, value=None, value_only=False):
     it = o.items[idx]
     if value is None:
         vs = outside_values(it[2], rng)
+        if rng.random() < 0.2:
+            # the number a neighbouring field of the same message holds, where this leaf does not allow it (an algorithm
+            # identifier of another family, a handle of another range ...): whatever was accepted for the neighbour says
+            # nothing about this field
+            nb = neighbour_values(o, idx)
+            vs = nb or vs
         if not vs:
             return None
         value = rng.choice(vs)
